@@ -53,7 +53,7 @@ func prepareTable(c *core.Ctx, prep *ssa.Function) (rs rows, runs int, undecided
 						return nil
 					}
 					if types.IsInterface(typ) {
-						if n := core.NamedOf(typ); n != nil && !n.Obj().Exported() && n.Obj().Pkg() != nil && core.InScopePath(n.Obj().Pkg().Path()) {
+						if n := core.NamedOf(typ); n != nil && !n.Obj().Exported() && n.Obj().Pkg() != nil && core.InScopePath(n.Obj().Pkg().Path()) && !ifaceHasMethod(typ, srNames.Name()) && !ifaceHasMethod(typ, srGet.Name()) {
 							return absint.NewTok("delegate:"+name, "delegate") // the delegate behind a narrowed view of the package's own
 						}
 						return reg
@@ -365,4 +365,18 @@ func prepareRules(c *core.Ctx, r *core.Report, ruleOf func(row string) string) {
 		x.rs.report(c, r, prep, ruleOf, cons, prepareRows)
 	}
 	r.Floor(any, "Factory implementations whose PrepareComponents is decided by the preparation table", n, 1)
+}
+
+// ifaceHasMethod: the interface type declares (or embeds) a method of that name.
+func ifaceHasMethod(t types.Type, name string) bool {
+	it, ok := t.Underlying().(*types.Interface)
+	if !ok {
+		return false
+	}
+	for i := 0; i < it.NumMethods(); i++ {
+		if it.Method(i).Name() == name {
+			return true
+		}
+	}
+	return false
 }
